@@ -436,10 +436,14 @@ pub enum OwnKind {
     Multi,
     /// -> Option<Tracked>
     Opt,
-    /// -> Result<Tracked, Tracked>
+    /// -> Result<&u32, Tracked>
     Res,
-    /// -> (Tracked, u8)
+    /// -> (&u32, TrackedC), repeated use
     Tup,
+    /// -> (&u32, Tracked), single use
+    Tup1,
+    /// -> Vec<Result<&u32, Tracked>>, single use
+    Vec,
 }
 
 #[derive(Serialize, Deserialize, Clone, Copy, Debug, PartialEq, Eq, Hash)]
